@@ -2,6 +2,12 @@
 
 package wkt
 
+import (
+	"encoding/json"
+	"os"
+	"sync"
+)
+
 // VerifHook, when set, receives one event per lexed token and per layout-stack validator
 // (verification instrumentation; compiled only with the "verif" build tag).
 var VerifHook func(ev string, arg string, ok bool, stack []VerifFrame)
@@ -22,4 +28,28 @@ func verifEmit(l *wktLex, ev, arg string, ok bool) {
 		fr[i] = VerifFrame{Layout: int(f.layout), Base: f.inBaseTypeCollection, MBE: f.nextPointMustBeEmpty}
 	}
 	VerifHook(ev, arg, ok, fr)
+}
+
+// With VERIF_WKT_CORPUS set (and no hook installed by the caller) every input handed to Unmarshal is
+// appended to that file as one JSON string per line: the way the verification suite harvests the
+// inputs of the package's own tests.
+func init() {
+	p := os.Getenv("VERIF_WKT_CORPUS")
+	if p == "" {
+		return
+	}
+	f, err := os.OpenFile(p, os.O_APPEND|os.O_CREATE|os.O_WRONLY, 0o644)
+	if err != nil {
+		return
+	}
+	var mu sync.Mutex
+	VerifHook = func(ev, arg string, _ bool, _ []VerifFrame) {
+		if ev != "begin" {
+			return
+		}
+		b, _ := json.Marshal(arg)
+		mu.Lock()
+		f.Write(append(b, '\n'))
+		mu.Unlock()
+	}
 }
